@@ -66,6 +66,11 @@ class Ctx:
         self._nontrivial = set()
         self._lock = None
         self.case_dir = os.path.join(COQ, "Cases", prop)
+        rdir = os.path.join(VERIF, "replays", prop)
+        if os.path.isdir(rdir):
+            for fn in os.listdir(rdir):
+                if fn.startswith(tier + "_"):
+                    os.remove(os.path.join(rdir, fn))
         self.thorough = tier == "thorough"
 
     # ------------------------------------------------------------ logging
